@@ -62,6 +62,12 @@ Theorem C18_require_kwargs_test_fails_on_positional_calls : forall s a k,
 Proof. intros. now apply (kw_test_some _ C18_kw_protocol_good). Qed.
 Print Assumptions C18_require_kwargs_test_fails_on_positional_calls.
 
+(* a callable that has a name is never repr'd by the messages: for functions, bound methods (also of an object whose
+   __repr__ raises) and wrappers the guard name_readable is free *)
+Theorem C18_named_is_readable : forall Sigma (cx : ctx Sigma) c, c_named (cx_callee cx c) = true -> name_readable cx c.
+Proof. intros. now left. Qed.
+Print Assumptions C18_named_is_readable.
+
 (* ---- transparency, one decorator ------------------------------------------------------------------------------ *)
 (* Full statement (FALSE on the current source, open known finding C18-K13; see the _refuted theorems below):
      for every twin behaviour g, all arguments, all states:  same_as g (use_wrapped d cx).
@@ -70,9 +76,13 @@ Print Assumptions C18_require_kwargs_test_fails_on_positional_calls.
    a decorated method) makes the decorated call fail.  Proved under the guard, only where the wrapper really formats
    a value:
      repr_harmless cx : producing the text of any value succeeds and has no effect (so it is not a wrapped method).
-   The name of the function is no guard any more: since the fix ff26652 the messages read
-   getattr(func, "__name__", repr(func)), so functools.partial objects and callable objects are covered
-   (former finding C18-K14; the translator compiles that read into the total item FOwn).                            *)
+   The name of the function: since the fixes ff26652 / 4311a8e the messages read
+   `func.__name__ if hasattr(func, "__name__") else repr(func)` (item FName): a callable WITH a name - functions, bound
+   methods, wrappers - is never repr'd, so for it there is no guard; for a callable WITHOUT a name (functools.partial,
+   callable objects) its own repr is evaluated, and that shows the receiver / the bound arguments:
+     name_readable cx CFunc := c_named f = true \/ repr of the callable is harmless.
+   (The first repair, getattr(func, "__name__", repr(func)), evaluated repr(func) on EVERY call: the translator refuses
+   that form.)                                                                                                       *)
 Section Transparent.
   Variable Sigma : Type.
   Variable cx : ctx Sigma.
@@ -81,24 +91,25 @@ Section Transparent.
   Hypothesis Htwin : behaves_as g (cx_callee cx CFunc).
 
   Theorem C18_transparent_trace_partial : repr_harmless cx -> same_as g (use_wrapped d_trace cx).
-  Proof. intros Hr. apply behaves_use. apply meets_trace; assumption. Qed.
+  Proof. intros Hr. pose proof (repr_harmless_name _ cx CFunc Hr). apply behaves_use. apply meets_trace; assumption. Qed.
 
-  (* timer, count_calls and deprecated format nothing of the caller's: no guard at all, any callable *)
-  Theorem C18_transparent_timer : same_as g (use_wrapped d_timer cx).
-  Proof. apply behaves_use. apply meets_timer; assumption. Qed.
+  (* timer, count_calls and deprecated format nothing of the caller's, only the name: any named callable without any
+     guard (C18_named_is_readable), a nameless one when its own repr is harmless *)
+  Theorem C18_transparent_timer_partial : name_readable cx CFunc -> same_as g (use_wrapped d_timer cx).
+  Proof. intros Hn. apply behaves_use. apply meets_timer; assumption. Qed.
 
-  Theorem C18_transparent_count_calls : same_as g (use_wrapped d_count_calls cx).
-  Proof. apply behaves_use. apply meets_count_calls; assumption. Qed.
+  Theorem C18_transparent_count_calls_partial : name_readable cx CFunc -> same_as g (use_wrapped d_count_calls cx).
+  Proof. intros Hn. apply behaves_use. apply meets_count_calls; assumption. Qed.
 
-  Theorem C18_transparent_deprecated :
-    cx_warn_prog cx = raise_warning_prog -> same_as g (use_wrapped d_deprecated cx).
+  Theorem C18_transparent_deprecated_partial :
+    name_readable cx CFunc -> cx_warn_prog cx = raise_warning_prog -> same_as g (use_wrapped d_deprecated cx).
   Proof.
-    intros H. apply behaves_use. apply meets_deprecated; try assumption. rewrite H. exact C18_warn_prog_never_raises.
+    intros Hn H. apply behaves_use. apply meets_deprecated; try assumption. rewrite H. exact C18_warn_prog_never_raises.
   Qed.
 
   (* whatever `==` answers *)
   Theorem C18_transparent_trace_if_returns_partial : repr_harmless cx -> same_as g (use_wrapped d_trace_if_returns cx).
-  Proof. intros Hr. apply behaves_use. apply meets_trace_if_returns; assumption. Qed.
+  Proof. intros Hr. pose proof (repr_harmless_name _ cx CFunc Hr). apply behaves_use. apply meets_trace_if_returns; assumption. Qed.
 
   (* every keyword call, when the wrapper's test is the regenerated one applied to what require_kwargs sees of the
      function (shape s) and the function was decorated with the @ syntax.  require_kwargs is defined on function
@@ -123,7 +134,7 @@ Section Transparent.
     (forall c v c1, g a k c = (ROk v, c1) -> exists v', go a k c1 = (ROk v', c1) /\ cx_vne cx v' v = false) ->
     same_as_at g (use_wrapped d_does_same_as_function cx) a k.
   Proof.
-    intros go a k Hr Hp Hs Ho Hagree s.
+    intros go a k Hr Hp Hs Ho Hagree s. pose proof (repr_harmless_name _ cx CFunc Hr).
     assert (Hm : behaves_as (spec_apply NDoesSame cx go g) (as_callee d_does_same_as_function cx)) by (apply meets_does_same; assumption).
     destruct (behaves_use _ _ _ Hm a k s) as [w E].
     cbn [spec_apply] in E. unfold spec_does_same in E.
@@ -146,9 +157,9 @@ Section Transparent.
   Qed.
 End Transparent.
 Print Assumptions C18_transparent_trace_partial.
-Print Assumptions C18_transparent_timer.
-Print Assumptions C18_transparent_count_calls.
-Print Assumptions C18_transparent_deprecated.
+Print Assumptions C18_transparent_timer_partial.
+Print Assumptions C18_transparent_count_calls_partial.
+Print Assumptions C18_transparent_deprecated_partial.
 Print Assumptions C18_transparent_trace_if_returns_partial.
 Print Assumptions C18_transparent_overrides.
 Print Assumptions C18_transparent_require_kwargs_keyword_call.
@@ -261,8 +272,9 @@ Proof.
   assert (Hwu : awaited_if_coro (cx_callee cx CFunc) = true) by (unfold awaited_if_coro; now rewrite Hi, Hm).
   split.
   - assert (Hs : level_side n cx go).
-    { cbn in Hn. repeat (destruct Hn as [Hn|Hn]; [subst n; cbn; try exact I; try exact Hrepr; rewrite Hp; exact C18_warn_prog_never_raises|]).
-      contradiction. }
+    { pose proof (repr_harmless_name _ cx CFunc Hrepr) as Hnm.
+      assert (Hw : fops_safe false (cx_warn_prog cx) = true) by (rewrite Hp; exact C18_warn_prog_never_raises).
+      destruct n; cbn; auto; cbn in Hn; repeat (destruct Hn as [Hn|Hn]; [discriminate Hn|]); contradiction. }
     pose proof (behaves_use _ _ _ (level_meets_spec Sigma n cx go g Hwu Hsim Hs)) as H.
     cbn in Hn. repeat (destruct Hn as [Hn|Hn]; [subst n; exact H|]). contradiction.
   - rewrite as_callee_iscoro, Hi.
@@ -276,6 +288,7 @@ Print Assumptions C18_coroutine_awaited_to_same_result.
    callee is only asked not to write this wrapper's counter itself (an inner count_calls wrapper has its own) *)
 Theorem C18_count_exact : forall Sigma (cx : ctx Sigma) calls s,
   let me := cx_self cx in
+  name_readable cx CFunc ->           (* free for every named callable; a nameless one must have a harmless repr *)
   (forall c a k s, cnt_get me (ws_cnt (ws (snd (c_call (cx_callee cx c) a k s)))) = cnt_get me (ws_cnt (ws s))) ->
   (forall c a k s, cnt_get me (ws_cnt (ws (snd (c_resume (cx_callee cx c) a k s)))) = cnt_get me (ws_cnt (ws s))) ->
   cnt_get me (ws_cnt (ws (run_calls (use_wrapped d_count_calls cx) calls s)))
@@ -286,7 +299,7 @@ Print Assumptions C18_count_exact.
 
 (* ... and a count_calls wrapper writes no other wrapper's counter *)
 Theorem C18_count_only_own_counter : forall Sigma (cx : ctx Sigma) id a k s,
-  id <> cx_self cx ->
+  name_readable cx CFunc -> id <> cx_self cx ->
   (forall c a k s, cnt_get id (ws_cnt (ws (snd (c_call (cx_callee cx c) a k s)))) = cnt_get id (ws_cnt (ws s))) ->
   (forall c a k s, cnt_get id (ws_cnt (ws (snd (c_resume (cx_callee cx c) a k s)))) = cnt_get id (ws_cnt (ws s))) ->
   cnt_get id (ws_cnt (ws (snd (use_wrapped d_count_calls cx a k s)))) = cnt_get id (ws_cnt (ws s)).
@@ -301,6 +314,7 @@ Proof. exact mock_never_calls. Qed.
 Print Assumptions C18_mock_never_calls.
 
 Theorem C18_unimplemented_never_calls : forall Sigma (cx : ctx Sigma) a k s,
+  name_readable cx CFunc ->
   use_wrapped d_unimplemented cx a k s = (RExc NotImplementedExceptionC (XFresh 4), s).
 Proof. exact unimplemented_never_calls. Qed.
 Print Assumptions C18_unimplemented_never_calls.
@@ -343,7 +357,7 @@ Theorem C18_does_same_iff_differ : forall Sigma (cx : ctx Sigma) g go a k s v c1
   (fst out = RExc AssertionErrorC (XFresh 4) <-> cx_vne cx v2 v = true) /\
   (fst out = ROk v <-> cx_vne cx v2 v = false).
 Proof.
-  intros Sigma cx g go a k s v c1 v2 c2 Hwu Hsim Hr Hp Hs Ho Eg Ego out.
+  intros Sigma cx g go a k s v c1 v2 c2 Hwu Hsim Hr Hp Hs Ho Eg Ego out. pose proof (repr_harmless_name _ cx CFunc Hr).
   assert (Hm : behaves_as (spec_apply NDoesSame cx go g) (as_callee d_does_same_as_function cx)) by (apply meets_does_same; assumption).
   destruct (behaves_use _ _ _ Hm a k s) as [w E].
   subst out. unfold use_wrapped. rewrite E. cbn [spec_apply]. unfold spec_does_same. rewrite Eg, Ego.
@@ -363,14 +377,14 @@ Proof.
   intros Sigma cx g go Hi Hm Hio Hmo Htok Hsim Ho Hr.
   assert (Hwu : awaited_if_coro (cx_callee cx CFunc) = true) by (unfold awaited_if_coro; now rewrite Hi, Hm).
   apply behaves_use.
-  apply meets_does_same_async; try assumption. exact (call_awaited_other Sigma cx go Ho Hmo Htok).
+  pose proof (repr_harmless_name _ cx CFunc Hr). apply meets_does_same_async; try assumption. exact (call_awaited_other Sigma cx go Ho Hmo Htok).
 Qed.
 Print Assumptions C18_does_same_async.
 
 (* deprecated: exactly one DeprecationWarning per call, whatever the warning filter was before the call, for every
    callee behaviour and every history *)
 Theorem C18_deprecated_one_warning : forall Sigma (cx : ctx Sigma) calls s,
-  cx_warn_prog cx = raise_warning_prog ->
+  name_readable cx CFunc -> cx_warn_prog cx = raise_warning_prog ->
   (forall c a k s, n_deprecation (ws_log (ws (snd (c_call (cx_callee cx c) a k s)))) = n_deprecation (ws_log (ws s))) ->
   (forall c a k s, n_deprecation (ws_log (ws (snd (c_resume (cx_callee cx c) a k s)))) = n_deprecation (ws_log (ws s))) ->
   n_deprecation (ws_log (ws (run_calls (use_wrapped d_deprecated cx) calls s)))
@@ -384,8 +398,11 @@ Print Assumptions C18_deprecated_one_warning.
      same_as calling it on the undecorated class.
    Proved for every (m, acc) with class_access_ok m acc = true, i.e. everything except a static method reached
    through an instance and a class method reached through an instance or through a subclass - and, as for trace
-   itself, when repr is harmless.  (A class's own __repr__ / __str__ is no longer traced, fix 80ba436: see
-   C18_trace_class_leaves_repr_alone.) *)
+   itself, when repr is harmless.  For a class under trace_class `repr_harmless` is a condition on the CLASS: every
+   method prints repr(self), so the class's __repr__ / __str__ must not call a member of the class (all are traced) and
+   must not read state that __init__ has not set yet (the traced __init__ prints self first); see the two _refuted
+   theorems C18_trace_class_repr_calls_member_refuted / _repr_reads_init_state_refuted (open finding C18-K13b).  That
+   the __repr__ itself gets no wrapper (fix 80ba436, C18_trace_class_does_not_wrap_repr) does not discharge it. *)
 Theorem C18_class_methods_partial : forall Sigma n (cx : ctx Sigma) fn g m acc self cls0 sub a o,
   (n = NTrace \/ n = NTimer) ->
   awaited_if_coro fn = true -> behaves_as g fn ->
@@ -518,38 +535,61 @@ Theorem C18_trace_result_repr_raises_refuted :
 Proof. exists (ex_cx_repr (bad_repr 100 ValueErrorC) (ex_fn 1)), [VObj 7]. vm_compute. repeat split; reflexivity. Qed.
 Print Assumptions C18_trace_result_repr_raises_refuted.
 
-(* trace_class leaves a class's own __repr__ / __str__ alone (fix 80ba436; former finding C18-K13a): the shortcut
-   passes both names in `skip`, and for_all_methods does not touch a skipped attribute (the translator refuses any
-   other shape of the loop) *)
-Theorem C18_trace_class_leaves_repr_alone :
+(* trace_class does not trace a class's own __repr__ / __str__ (fix 80ba436): the shortcut passes both names in `skip`,
+   and for_all_methods does not touch a skipped attribute (the translator refuses any other shape of the loop).
+   This is only a statement about WHICH attributes get a wrapper ... *)
+Theorem C18_trace_class_does_not_wrap_repr :
   exists names, In ("trace_class"%string, names) class_skips /\ In "__repr__"%string names /\ In "__str__"%string names.
 Proof. eexists. split; [vm_compute; auto 10|]. split; vm_compute; auto. Qed.
-Print Assumptions C18_trace_class_leaves_repr_alone.
+Print Assumptions C18_trace_class_does_not_wrap_repr.
 
-(* why that matters: IF __repr__ were traced, the traced __repr__ would format its own `self`, i.e. call itself.
-   `budget` is the interpreter's recursion limit; for EVERY budget the outcome is RecursionError, nothing is printed and
-   no body (neither __repr__ nor the method) ever runs *)
-Fixpoint traced_repr (budget : nat) : val -> st jst -> res * st jst :=
+(* ... it does NOT make repr(self) harmless (open finding C18-K13b).  Every other method of the class is traced and
+   prints repr(self) before its body runs, so:
+   (a) a __repr__ that calls a method of the class (def __repr__(self): return f'Q({self.name()})') re-enters a traced
+       method, which formats its own `self`, i.e. calls __repr__ again.  `budget` is the interpreter's recursion limit;
+       for EVERY budget the outcome is RecursionError, nothing is printed and no body ever runs (the same computation
+       as a traced __repr__ before the fix); *)
+Fixpoint repr_calling_traced_member (budget : nat) : val -> st jst -> res * st jst :=
   match budget with
   | O => fun _ s => (RExc RecursionErrorC (XFresh 8), s)
-  | S b => fun v s => use_wrapped d_trace (ex_cx_repr (traced_repr b) (ex_fn 1)) [v] [] s       (* def __repr__(self) *)
+  | S b => fun v s => use_wrapped d_trace (ex_cx_repr (repr_calling_traced_member b) (ex_fn 1)) [v] [] s   (* self.name() *)
   end.
 
-Lemma traced_repr_recurses : forall budget v s, traced_repr budget v s = (RExc RecursionErrorC (XFresh 8), s).
+Lemma repr_calling_traced_member_recurses : forall budget v s,
+  repr_calling_traced_member budget v s = (RExc RecursionErrorC (XFresh 8), s).
 Proof.
   induction budget as [|b IH]; intros v s; [reflexivity|].
-  cbn [traced_repr]. unfold use_wrapped, use_callee, as_callee. cbn.
+  cbn [repr_calling_traced_member]. unfold use_wrapped, use_callee, as_callee. cbn.
   unfold run_body. cbn. unfold after_fmt, fmt_item. cbn. rewrite IH. reflexivity.
 Qed.
 
-Example C18_example_a_traced_repr_would_recurse : forall budget self s,
-  use_wrapped d_trace (ex_cx_repr (traced_repr budget) (ex_fn 1)) [self] [] s = (RExc RecursionErrorC (XFresh 8), s) /\
-  fst (use_callee (ex_fn 1) [self] [] ex_s0) = ROk (VObj 100).
+Theorem C18_trace_class_repr_calls_member_refuted : forall budget self s,
+  (* Q().get(): get is traced, its message formats self *)
+  use_wrapped d_trace (ex_cx_repr (repr_calling_traced_member budget) (ex_fn 1)) [self] [] s
+    = (RExc RecursionErrorC (XFresh 8), s) /\
+  fst (use_callee (ex_fn 1) [self] [] ex_s0) = ROk (VObj 100) /\
+  ~ repr_harmless (ex_cx_repr (repr_calling_traced_member budget) (ex_fn 1)).
 Proof.
-  intros budget self s. split; [|reflexivity].
-  unfold use_wrapped, use_callee, as_callee. cbn.
-  unfold run_body. cbn. unfold after_fmt, fmt_item. cbn. rewrite traced_repr_recurses. reflexivity.
+  intros budget self s. split; [|split; [reflexivity|]].
+  - unfold use_wrapped, use_callee, as_callee. cbn.
+    unfold run_body. cbn. unfold after_fmt, fmt_item. cbn. rewrite repr_calling_traced_member_recurses. reflexivity.
+  - intros H. destruct (H VNone ex_s0) as [r E]. cbn in E. rewrite repr_calling_traced_member_recurses in E. discriminate E.
 Qed.
+Print Assumptions C18_trace_class_repr_calls_member_refuted.
+
+(* (b) a __repr__ that reads state set by __init__ (def __init__(self, x): self.x = x; def __repr__: f'Q4({self.x})'):
+       the traced __init__ formats self BEFORE its body has set anything - Q4(1) raises AttributeError, the undecorated
+       class constructs the object *)
+Theorem C18_trace_class_repr_reads_init_state_refuted :
+  exists self x,
+    let cx := ex_cx_repr (bad_repr 50 AttributeErrorC) (ex_fn 2) in              (* def __init__(self, x) *)
+    use_wrapped d_trace cx [self; x] [] ex_s0 = (RExc AttributeErrorC (XId 2050), ex_s0) /\
+    fst (use_callee (ex_fn 2) [self; x] [] ex_s0) = ROk (VObj 100) /\ ~ repr_harmless cx.
+Proof.
+  exists (VObj 50), (VObj 1). cbn zeta. split; [vm_compute; reflexivity | split; [vm_compute; reflexivity|]].
+  intros H. destruct (H (VObj 50) ex_s0) as [r E]. vm_compute in E. discriminate E.
+Qed.
+Print Assumptions C18_trace_class_repr_reads_init_state_refuted.
 
 (* a callable without __name__ / __qualname__ (functools.partial(f), an instance with __call__): since fix ff26652 every
    wrapper that only MENTIONS the function in a message works on it (former finding C18-K14).  Two decorators are, by
@@ -573,6 +613,34 @@ Example C18_example_nameless_callables :
   fst (use_wrapped d_require_kwargs cx [] [] ex_s0) = RExc AttributeErrorC (XFresh 7) /\
   run_pre (d_pre d_overrides) true false (fun _ => true) = PreRaise AttributeErrorC.
 Proof. vm_compute. repeat split; reflexivity. Qed.
+
+(* ... but a NAMELESS callable whose own repr raises (functools.partial(obj.m) where repr(obj) raises: the repr of a partial
+   shows the receiver) still fails: the fallback of the name read is that repr (open finding C18-K13).  timer: after
+   the body ran, the result is lost.  A NAMED callable with the very same repr - the bound method obj.m itself - is fine *)
+Definition callable_repr_raises : val -> st jst -> res * st jst :=
+  fun v s => match v with VCallable _ => (RExc ValueErrorC (XId 2999), s) | _ => (ROk VOpaque, s) end.
+
+Theorem C18_nameless_callable_repr_raises_refuted :
+  let a := [VObj 1] in
+  let cxp := ex_cx_repr callable_repr_raises (nameless (ex_fn 1)) in       (* functools.partial(obj.m) *)
+  let cxm := ex_cx_repr callable_repr_raises (ex_fn 1) in                  (* obj.m *)
+  ~ name_readable cxp CFunc /\
+  (fst (use_wrapped d_timer cxp a [] ex_s0) = RExc ValueErrorC (XId 2999) /\
+   cs (snd (use_wrapped d_timer cxp a [] ex_s0)) = [CallRec CFunc a []]) /\
+  fst (use_wrapped d_count_calls cxp a [] ex_s0) = RExc ValueErrorC (XId 2999) /\
+  fst (use_wrapped d_deprecated cxp a [] ex_s0) = RExc ValueErrorC (XId 2999) /\
+  fst (use_wrapped d_unimplemented cxp a [] ex_s0) = RExc ValueErrorC (XId 2999) /\
+  fst (use_callee (nameless (ex_fn 1)) a [] ex_s0) = ROk (VObj 100) /\
+  (* the bound method: never repr'd *)
+  fst (use_wrapped d_timer cxm a [] ex_s0) = ROk (VObj 100) /\ fst (use_wrapped d_count_calls cxm a [] ex_s0) = ROk (VObj 100) /\
+  fst (use_wrapped d_deprecated cxm a [] ex_s0) = ROk (VObj 100) /\
+  fst (use_wrapped d_unimplemented cxm a [] ex_s0) = RExc NotImplementedExceptionC (XFresh 4).
+Proof.
+  cbn zeta. split.
+  - intros [H|H]; [discriminate H|]. destruct (H ex_s0) as [r E]. discriminate E.
+  - vm_compute. repeat split; reflexivity.
+Qed.
+Print Assumptions C18_nameless_callable_repr_raises_refuted.
 
 (* ---- non-vacuity ------------------------------------------------------------------------------------------------------- *)
 (* the hypotheses of the theorems above are satisfiable (by a def and by an async def), and the wrappers really run
